@@ -424,7 +424,27 @@ func c05M5(l *core.Ledger, r *rt) {
 				}
 			}
 		})
-		l.Check(ok && n >= 1 && okRet, "C05-M5", "gorums.WrapMessage", fn.Pos(), "writes only Status; returns the given metadata", "WrapMessage alters the echoed metadata beyond its status, or does not return it: the reply is routed to another call")
+		// second form: the reply gets metadata of its own, a fresh literal whose MessageID and Method are
+		// read from the given metadata, which is not written at all
+		okFresh := false
+		if n == 0 {
+			if fm := wrapFreshMetadata(fn); fm != nil {
+				fs := allocFieldStores(fm)
+				fromMd := func(v ssa.Value, field, getter string) bool {
+					return v != nil && sx.All(sx.Origins(v), func(o sx.Origin) bool {
+						if o.Kind == sx.KField && o.Field != nil && o.Field.Name() == field {
+							return sx.All(o.Base, sx.IsParam(md))
+						}
+						if c, isCall := o.V.(*ssa.Call); o.Kind == sx.KCall && isCall && c.Call.StaticCallee() != nil && c.Call.StaticCallee().Name() == getter && len(c.Call.Args) == 1 {
+							return sx.All(sx.Origins(c.Call.Args[0]), sx.IsParam(md))
+						}
+						return false
+					})
+				}
+				okFresh = fromMd(fs["MessageID"], "MessageID", "GetMessageID") && fromMd(fs["Method"], "Method", "GetMethod")
+			}
+		}
+		l.Check((ok && n >= 1 && okRet) || okFresh, "C05-M5", "gorums.WrapMessage", fn.Pos(), "writes only Status and returns the given metadata, or returns fresh metadata with the given MessageID and Method", "WrapMessage alters the echoed metadata beyond its status, or does not return it: the reply is routed to another call")
 	}
 	// nobody else writes MessageID / Method of a Metadata that is not a fresh literal
 	var writers []string
@@ -715,4 +735,22 @@ func c05M14(l *core.Ledger, r *rt) {
 	if n == 0 {
 		l.OK("C05-M14", "no-router-counter", token.NoPos, "no counter is kept next to the router map")
 	}
+}
+
+// wrapFreshMetadata: the Metadata literal that WrapMessage puts into the Message it returns (nil if
+// it returns the metadata it was given).
+func wrapFreshMetadata(fn *ssa.Function) *ssa.Alloc {
+	var out *ssa.Alloc
+	sx.AllInstrs(fn, func(_ sx.Node, in ssa.Instruction) {
+		ret, isRet := in.(*ssa.Return)
+		if !isRet || len(ret.Results) == 0 {
+			return
+		}
+		if al, isAl := ret.Results[0].(*ssa.Alloc); isAl {
+			if m, ok := allocFieldStores(al)["Metadata"].(*ssa.Alloc); ok && isNamed(m.Type(), orderingPkg, "Metadata") {
+				out = m
+			}
+		}
+	})
+	return out
 }
